@@ -1,9 +1,166 @@
 import Driver.Util
-/-! Protocol handlers of the `graph.*` suites. -/
+import StoneVerif.Model.Graph
+/-! Protocol handlers of the `graph.*` suites (C20, and the ordering part of C02).
+
+Graph dump (`harness/suites/graph.py: dump_graph`):
+`{"nodes":[{"id","kind","ns","name","version","parent","fields":[{"name","ty","dflt","tagdef","docs"}],
+"subtypes","target","docs","arg","result","error"}], "namespaces":[{"name","docs","routes","types","aliases"}]}`
+type expressions: `"p"` | `["l",t]` | `["m",k,v]` | `["n",t]` | `["r",id]`; doc references: `[tag, val]`. -/
 open Lean
 namespace Driver.Graph
+open StoneVerif StoneVerif.Graph
 
-def handle (op : String) (_j : Json) : Except String Json := do
-  throw s!"unknown op {op}"
+partial def tyOfJson (j : Json) : Except String TyExpr := do
+  match j with
+  | .str "p" => pure .prim
+  | .arr a =>
+    match a.toList with
+    | [.str "l", t] => do pure (.list (← tyOfJson t))
+    | [.str "n", t] => do pure (.nullable (← tyOfJson t))
+    | [.str "m", k, v] => do pure (.map (← tyOfJson k) (← tyOfJson v))
+    | [.str "r", .str i] => pure (.ref i)
+    | _ => throw "bad type expression"
+  | _ => throw "bad type expression"
+
+def docRefsOf (j : Json) (k : String) : Except String (List DocRef) := do
+  match jopt j k with
+  | none => pure []
+  | some v =>
+    let a ← v.getArr?
+    a.toList.mapM fun p => do
+      let q ← p.getArr?
+      match q.toList with
+      | [.str t, .str v] => pure { tag := t, val := v }
+      | _ => throw "bad doc reference"
+
+def optStr (j : Json) (k : String) : Except String (Option String) :=
+  match jopt j k with
+  | none => pure none
+  | some v => do pure (some (← v.getStr?))
+
+def optTy (j : Json) (k : String) : Except String TyExpr :=
+  match jopt j k with
+  | none => pure .prim
+  | some v => tyOfJson v
+
+def optStrList (j : Json) (k : String) : Except String (List String) :=
+  match jopt j k with
+  | none => pure []
+  | some v => do (← v.getArr?).toList.mapM asStr
+
+def fieldOfJson (j : Json) : Except String Field := do
+  pure { name := ← jstr j "name"
+         ty := ← optTy j "ty"
+         hasDefault := (jbool j "dflt").toOption.getD false
+         tagDefault := ← optStr j "tagdef"
+         docRefs := ← docRefsOf j "docs" }
+
+def kindOf (s : String) : Except String Kind :=
+  match s with
+  | "struct" => pure .struct
+  | "union" => pure .union
+  | "alias" => pure .alias
+  | "route" => pure .route
+  | _ => throw s!"bad kind {s}"
+
+def nodeOfJson (j : Json) : Except String Node := do
+  let fields ← match jopt j "fields" with
+    | none => pure []
+    | some v => do (← v.getArr?).toList.mapM fieldOfJson
+  pure { id := ← jstr j "id"
+         kind := ← kindOf (← jstr j "kind")
+         ns := ← jstr j "ns"
+         name := ← jstr j "name"
+         version := (jnat j "version").toOption.getD 1
+         parent := ← optStr j "parent"
+         fields := fields
+         subtypes := ← optStrList j "subtypes"
+         target := ← optTy j "target"
+         docRefs := ← docRefsOf j "docs"
+         arg := ← optTy j "arg"
+         result := ← optTy j "result"
+         error := ← optTy j "error" }
+
+def nsOfJson (j : Json) : Except String Namespace := do
+  pure { name := ← jstr j "name"
+         docRefs := ← docRefsOf j "docs"
+         routes := ← optStrList j "routes"
+         dataTypes := ← optStrList j "types"
+         aliases := ← optStrList j "aliases" }
+
+def graphOfJson (j : Json) : Except String Graph := do
+  let g ← jobj j "graph"
+  let nodes ← (← jarr g "nodes").toList.mapM nodeOfJson
+  let nss ← (← jarr g "namespaces").toList.mapM nsOfJson
+  pure { nodes := nodes, namespaces := nss }
+
+def wlPart (j : Json) (k : String) : Except String (List (String × List String)) := do
+  let ps ← pairList j k
+  ps.mapM fun (ns, v) => do
+    let a ← v.getArr?
+    pure (ns, ← a.toList.mapM asStr)
+
+def jids (l : List String) : Json := Json.arr (l.toArray.map Json.str)
+
+def errToJson : Err → Json
+  | .keyError w => Json.mkObj [("kind", "KeyError"), ("what", w)]
+  | .assertion w => Json.mkObj [("kind", "AssertionError"), ("what", w)]
+  | .valueError w => Json.mkObj [("kind", "ValueError"), ("what", w)]
+  | .recursion => Json.mkObj [("kind", "recursion")]
+  | .dangling i => Json.mkObj [("kind", "dangling"), ("what", i)]
+
+def exceptIds (r : Except Err (List Id)) : Json :=
+  match r with
+  | .ok l => Json.mkObj [("ok", jids l)]
+  | .error e => Json.mkObj [("error", errToJson e)]
+
+def ownedToJson (l : List (Id × Field)) : Json :=
+  Json.arr (l.toArray.map fun (o, f) => Json.arr #[Json.str o, Json.str f.name])
+
+def exceptOwned (r : Except Err (List (Id × Field))) : Json :=
+  match r with
+  | .ok l => Json.mkObj [("ok", ownedToJson l)]
+  | .error e => Json.mkObj [("error", errToJson e)]
+
+def hypsToJson (h : Hyps) : Json :=
+  Json.mkObj [("refs_ok", Json.bool h.refsOk), ("docs_agree", Json.bool h.docsAgree),
+    ("tag_defaults_ok", Json.bool h.tagDefaultsOk), ("route_docs_closed", Json.bool h.routeDocsClosed),
+    ("seed_doc_routes_kept", Json.bool h.seedDocRoutesKept)]
+
+def handle (op : String) (j : Json) : Except String Json := do
+  match op with
+  | "graph.closure" =>
+    let g ← graphOfJson j
+    let sd ← strList j "seeds"
+    pure (ok [("closure", jids (closure g sd)), ("refs_ok", Json.bool g.refsOk)])
+  | "graph.filter" =>
+    let g ← graphOfJson j
+    let wl : Whitelist := { routes := ← wlPart j "route_whitelist", datatypes := ← wlPart j "datatype_whitelist" }
+    let sd := seeds g wl
+    let res := match whitelistFilter g wl with
+      | .error e => Json.mkObj [("error", errToJson e)]
+      | .ok r => Json.mkObj [("ok", Json.mkObj [
+          ("types", jids r.types), ("routes", jids r.routes), ("aliases", jids r.aliases),
+          ("reached_aliases", jids (r.reachedAliases g)), ("start", jids r.start)])]
+    pure (ok [("result", res), ("seeds", jids sd), ("closure", jids (closure g sd)),
+              ("refs_ok", Json.bool g.refsOk), ("hyps", hypsToJson (checkHyps g wl))])
+  | "graph.linearize" =>
+    let g ← graphOfJson j
+    let per := g.namespaces.map fun n =>
+      let nn := n.normalize g
+      Json.mkObj [("name", n.name),
+        ("types", exceptIds (linearizeDataTypes g n.name n.dataTypes)),
+        ("aliases", exceptIds (linearizeAliases g n.name n.aliases)),
+        ("norm_routes", jids nn.routes), ("norm_types", jids nn.dataTypes), ("norm_aliases", jids nn.aliases)]
+    pure (ok [("namespaces", Json.arr per.toArray),
+              ("norm_namespaces", jids ((normalize g).namespaces.map (·.name)))])
+  | "graph.allfields" =>
+    let g ← graphOfJson j
+    let per := (g.nodes.filter (·.isType)).map fun n =>
+      Json.mkObj [("id", n.id), ("all", exceptOwned (allFields g n.id)),
+        ("required", exceptOwned (if n.kind == .struct then allRequired g n.id else .ok [])),
+        ("optional", exceptOwned (if n.kind == .struct then allOptional g n.id else .ok []))]
+    pure (ok [("types", Json.arr per.toArray)])
+  | _ => throw s!"unknown op {op}"
 
 end Driver.Graph
